@@ -498,7 +498,14 @@ func buildAll(cfg *Config) {
 	seen := map[string]bool{}
 	type job struct{ pkg, variant string }
 	var jobs []job
+	ready := map[string]bool{}
+	for _, id := range cfg.Ready {
+		ready[id] = true
+	}
 	for _, c := range cfg.Checks {
+		if len(ready) > 0 && !ready[c.ID] {
+			continue
+		}
 		for _, u := range c.Units {
 			k := u.Pkg + "|" + u.Variant
 			if !seen[k] {
@@ -507,11 +514,12 @@ func buildAll(cfg *Config) {
 			}
 		}
 	}
-	// sequential: the go tool parallelises internally
+	// sequential: the go tool parallelises internally. A failing build is
+	// reported but does not fail the setup: the affected check reports
+	// INCONCLUSIVE reason=harness-build by itself.
 	for _, j := range jobs {
 		if _, err := build(cfg, j.pkg, j.variant); err != nil {
 			fmt.Fprintln(os.Stderr, err)
-			os.Exit(2)
 		}
 	}
 }
